@@ -1,12 +1,494 @@
-//! C05: not yet implemented
+//! C05: Excel sheets (EXH header, EXD page) decode to the stored cells; page file names.
+//!
+//! Abstract cases (schema + rows + query id) are generated here; the Lean driver encodes them with
+//! the `Spec/Excel.lean` encoders and hands back `row <exh hex> <exd hex> <id>` for the real code.
 #![allow(unused)]
 use crate::util::*;
 use std::io::Write;
 
-pub fn generate(thorough: bool, seed: u64, out: &mut dyn Write) {}
+use physis::common::Language;
+use physis::exd::{ColumnData, EXD};
+use physis::exh::{ExcelDataPagination, EXH};
 
-pub fn run(case: &str, input: &str) -> String {
-    "unimplemented".to_string()
+const CODES: [u16; 19] = [
+    0x0, 0x1, 0x2, 0x3, 0x4, 0x5, 0x6, 0x7, 0x9, 0xA, 0xB, 0x19, 0x1A, 0x1B, 0x1C, 0x1D, 0x1E, 0x1F, 0x20,
+];
+
+fn size_of(code: u16) -> usize {
+    match code {
+        0x0 | 0x6 | 0x7 | 0x9 => 4,
+        0x4 | 0x5 => 2,
+        0xA | 0xB => 8,
+        _ => 1,
+    }
 }
 
-pub fn dump(out: &mut dyn Write) {}
+fn ascii_string(rng: &mut Rng) -> Vec<u8> {
+    let n = match rng.below(10) {
+        0 => 0,
+        1..=6 => rng.range(1, 12),
+        7 | 8 => rng.range(12, 80),
+        _ => rng.range(80, 300),
+    } as usize;
+    (0..n).map(|_| rng.range(0x20, 0x7e) as u8).collect()
+}
+
+fn edge(rng: &mut Rng, bits: u32) -> u64 {
+    let mask = if bits == 64 { u64::MAX } else { (1u64 << bits) - 1 };
+    match rng.below(8) {
+        0 => 0,
+        1 => 1,
+        2 => mask,            // -1 / MAX
+        3 => 1u64 << (bits - 1), // MIN
+        4 => (1u64 << (bits - 1)) - 1, // signed MAX
+        5 => rng.below(256) & mask,
+        _ => rng.next() & mask,
+    }
+}
+
+fn signed(v: u64, bits: u32) -> i128 {
+    if bits < 64 && v >= (1u64 << (bits - 1)) {
+        v as i128 - (1i128 << bits)
+    } else if bits == 64 {
+        v as i64 as i128
+    } else {
+        v as i128
+    }
+}
+
+fn cell(rng: &mut Rng, code: u16) -> String {
+    match code {
+        0x0 => format!("s:{}", hex(&ascii_string(rng))),
+        0x1 => format!("b:{}", rng.below(2)),
+        0x2 => format!("i8:{}", signed(edge(rng, 8), 8)),
+        0x3 => format!("u8:{}", edge(rng, 8)),
+        0x4 => format!("i16:{}", signed(edge(rng, 16), 16)),
+        0x5 => format!("u16:{}", edge(rng, 16)),
+        0x6 => format!("i32:{}", signed(edge(rng, 32), 32)),
+        0x7 => format!("u32:{}", edge(rng, 32)),
+        0x9 => {
+            let v = match rng.below(8) {
+                0 => 0x7fc0_0000u64, // NaN
+                1 => 0xff80_0000,    // -inf
+                2 => 0x8000_0000,    // -0
+                3 => 0x3f80_0000,    // 1.0
+                4 => 0x0000_0001,    // denormal
+                _ => rng.next() & 0xffff_ffff,
+            };
+            format!("f:{}", v)
+        }
+        0xA => format!("i64:{}", signed(edge(rng, 64), 64)),
+        0xB => format!("u64:{}", edge(rng, 64)),
+        _ => format!("b:{}", rng.below(2)),
+    }
+}
+
+struct Sheet {
+    sub: bool,
+    version: u16,
+    data_offset: usize,
+    cols: Vec<(u16, usize)>,
+    pages: Vec<(u32, u32)>,
+    langs: Vec<u8>,
+    row_count: u32,
+}
+
+impl Sheet {
+    fn header_fields(&self) -> String {
+        let cols: Vec<String> = self.cols.iter().map(|(c, o)| format!("{}:{}", c, o)).collect();
+        let pages: Vec<String> = self.pages.iter().map(|(s, c)| format!("{}:{}", s, c)).collect();
+        let langs: Vec<String> = self.langs.iter().map(|l| l.to_string()).collect();
+        let j = |v: Vec<String>| if v.is_empty() { "-".to_string() } else { v.join(",") };
+        format!(
+            "{} {} {} {} {} {} {}",
+            self.sub as u8, self.version, self.data_offset, j(cols), j(pages), j(langs), self.row_count
+        )
+    }
+}
+
+/// columns laid out without overlap (packed bools may share a byte with distinct bits), then
+/// shuffled; `min_region` forces a large fixed-size region (sub-row stride tests)
+fn sheet(rng: &mut Rng, sub: bool, ncols: usize, min_region: usize) -> Sheet {
+    let mut cols: Vec<(u16, usize)> = Vec::new();
+    let mut pos = rng.below(3) as usize;
+    let mut packed_at: Option<(usize, u8)> = None; // (offset, bits used)
+    for _ in 0..ncols {
+        let code = if rng.chance(1, 3) { 0x19 + rng.below(8) as u16 } else { *rng.pick(&CODES) };
+        if code >= 0x19 {
+            let bit = (code - 0x19) as u8;
+            if let Some((off, used)) = packed_at {
+                if used & (1 << bit) == 0 && rng.chance(4, 5) {
+                    cols.push((code, off));
+                    packed_at = Some((off, used | (1 << bit)));
+                    continue;
+                }
+            }
+            cols.push((code, pos));
+            packed_at = Some((pos, 1 << bit));
+            pos += 1;
+        } else {
+            cols.push((code, pos));
+            pos += size_of(code);
+        }
+        if rng.chance(1, 4) {
+            pos += rng.below(4) as usize;
+        }
+    }
+    let mut data_offset = pos + if rng.chance(1, 2) { 0 } else { rng.below(9) as usize };
+    if data_offset < min_region {
+        data_offset = min_region;
+    }
+    // sometimes move a column to the very end of a large region
+    if data_offset > pos + 8 && rng.chance(1, 2) {
+        let k = rng.below(cols.len() as u64) as usize;
+        if cols[k].0 < 0x19 {
+            cols[k].1 = data_offset - size_of(cols[k].0);
+        }
+    }
+    // shuffle
+    for i in (1..cols.len()).rev() {
+        let j = rng.below(i as u64 + 1) as usize;
+        cols.swap(i, j);
+    }
+    let npages = rng.range(1, 6) as usize;
+    let mut pages = Vec::new();
+    let mut start = rng.below(3) as u32 * 100;
+    for _ in 0..npages {
+        let cnt = rng.range(1, 5000) as u32;
+        pages.push((start, cnt));
+        start = start.wrapping_add(cnt + rng.below(100) as u32);
+    }
+    let nl = rng.range(1, 5) as usize;
+    let langs = if rng.chance(1, 3) { vec![0u8] } else { (0..nl).map(|_| rng.below(8) as u8).collect() };
+    Sheet {
+        sub,
+        version: if rng.chance(3, 4) { 3 } else { rng.below(65536) as u16 },
+        data_offset,
+        cols,
+        pages,
+        langs,
+        row_count: rng.u32_edge(),
+    }
+}
+
+fn row_ids(rng: &mut Rng, n: usize) -> Vec<u32> {
+    let mut ids: Vec<u32> = Vec::new();
+    while ids.len() < n {
+        let id = match rng.below(10) {
+            0 => 0,
+            1 => u32::MAX,
+            2 => 0x8000_0000,
+            3..=7 => rng.below(200) as u32,
+            _ => rng.next() as u32,
+        };
+        if !ids.contains(&id) {
+            ids.push(id);
+        }
+    }
+    ids
+}
+
+fn rows_field(rng: &mut Rng, sh: &Sheet, ids: &[u32], subs: &dyn Fn(&mut Rng) -> usize) -> String {
+    let mut rows = Vec::new();
+    for id in ids {
+        let n = if sh.sub { subs(rng) } else { 1 };
+        let mut ss = Vec::new();
+        for _ in 0..n {
+            let cells: Vec<String> = sh.cols.iter().map(|(c, _)| cell(rng, *c)).collect();
+            ss.push(cells.join(","));
+        }
+        rows.push(format!("{}={}", id, ss.join("|")));
+    }
+    rows.join(";")
+}
+
+fn emit_sheet(rng: &mut Rng, out: &mut dyn Write, sh: &Sheet, nrows: usize, subs: &dyn Fn(&mut Rng) -> usize, queries: usize) {
+    let ids = row_ids(rng, nrows);
+    let rows = rows_field(rng, sh, &ids, subs);
+    let hf = sh.header_fields();
+    for q in 0..queries {
+        let id = if q == 0 { ids[ids.len() - 1] } else if q == 1 { ids[0] } else { *rng.pick(&ids) };
+        writeln!(out, "row {} {} {}", hf, rows, id).unwrap();
+    }
+    // an id that is not stored
+    let mut miss = rng.below(300) as u32;
+    while ids.contains(&miss) {
+        miss = miss.wrapping_add(1);
+    }
+    writeln!(out, "row {} {} {}", hf, rows, miss).unwrap();
+}
+
+pub fn generate(thorough: bool, seed: u64, out: &mut dyn Write) {
+    let mut rng = Rng::new(seed, "C05");
+
+    // --- exhaustive small sweeps -------------------------------------------------------------
+    // every column type alone at offsets 0 and 3, default and sub-row sheets, several values
+    for &code in CODES.iter() {
+        for off in [0usize, 3] {
+            for sub in [false, true] {
+                let sh = Sheet {
+                    sub, version: 3, data_offset: off + size_of(code) + (off % 2), cols: vec![(code, off)],
+                    pages: vec![(0, 10)], langs: vec![0], row_count: 10,
+                };
+                for _ in 0..(if thorough { 12 } else { 3 }) {
+                    let ids = [5u32, 6];
+                    let rows = rows_field(&mut rng, &sh, &ids, &|r| r.range(2, 3) as usize);
+                    writeln!(out, "row {} {} {}", sh.header_fields(), rows, 6).unwrap();
+                }
+            }
+        }
+    }
+    // every packed-bool bit: 8 packed columns sharing one byte, all 256 byte patterns, with a
+    // Bool column and a UInt8 column next to it (the D4 / D5 shape: 01 08 07)
+    for pat in 0..256u32 {
+        let mut cols: Vec<(u16, usize)> = vec![(0x1, 0)];
+        for b in 0..8u16 {
+            cols.push((0x19 + b, 1));
+        }
+        cols.push((0x3, 2));
+        let sh = Sheet { sub: false, version: 3, data_offset: 3, cols, pages: vec![(0, 1)], langs: vec![0], row_count: 1 };
+        let mut cells = vec![format!("b:{}", pat & 1)];
+        for b in 0..8 {
+            cells.push(format!("b:{}", (pat >> b) & 1));
+        }
+        cells.push(format!("u8:{}", 255 - pat));
+        writeln!(out, "row {} 1={} 1", sh.header_fields(), cells.join(",")).unwrap();
+    }
+    // file names: every language x boundary start ids
+    for lang in 0..8u8 {
+        for start in [0u32, 1, 9, 10, 99, 100, 65535, 65536, 999_999, 0x7fff_ffff, 0x8000_0000, u32::MAX] {
+            writeln!(out, "fname {} {} {}", hex(b"Achievement"), lang, start).unwrap();
+        }
+    }
+
+    // --- random sheets -----------------------------------------------------------------------
+    let n = if thorough { 60_000 } else { 1_200 };
+    for i in 0..n {
+        let sub = rng.chance(1, 2);
+        let ncols = match rng.below(4) { 0 => rng.range(1, 3), 1 | 2 => rng.range(3, 10), _ => rng.range(10, 24) } as usize;
+        let sh = sheet(&mut rng, sub, ncols, 0);
+        let nrows = match rng.below(4) { 0 => 1, 1 | 2 => rng.range(2, 8), _ => rng.range(8, 40) } as usize;
+        let subs = |r: &mut Rng| -> usize {
+            (match r.below(10) { 0 => 1, 1..=6 => r.range(2, 6), 7 | 8 => r.range(6, 20), _ => r.range(20, 60) }) as usize
+        };
+        emit_sheet(&mut rng, out, &sh, nrows, &subs, 2);
+        writeln!(out, "exh {}", sh.header_fields()).unwrap();
+        let name: Vec<u8> = (0..rng.range(1, 20)).map(|_| *rng.pick(b"ABCDEFGHIJKLMNOPQRSTUVWXYZabcdefghijklmnopqrstuvwxyz0123456789_/")).collect();
+        writeln!(out, "fname {} {} {}", hex(&name), rng.below(8), rng.u32_edge()).unwrap();
+    }
+
+    // --- root lists -----------------------------------------------------------------------------
+    let k = if thorough { 6_000 } else { 150 };
+    for i in 0..k {
+        let n = match rng.below(5) { 0 => 0, 1 => 1, 2 | 3 => rng.range(2, 10), _ => rng.range(10, 60) } as usize;
+        let mut es = Vec::new();
+        for _ in 0..n {
+            let lo = if rng.chance(1, 30) { 0 } else { 1 };
+            let len = rng.range(lo, 24) as usize;
+            let mut name: Vec<u8> = (0..len)
+                .map(|_| match rng.below(12) {
+                    0 => b'/',
+                    1 => b'_',
+                    2 => *rng.pick(b" #.-+;:\r\t"),
+                    3 => rng.range(b'0' as u64, b'9' as u64) as u8,
+                    4..=6 => rng.range(b'A' as u64, b'Z' as u64) as u8,
+                    _ => rng.range(b'a' as u64, b'z' as u64) as u8,
+                })
+                .collect();
+            if name.first() == Some(&b'#') {
+                name[0] = b'H';
+            }
+            if name == b"EXLT" {
+                name.push(b'2');
+            }
+            let id: i64 = match rng.below(8) {
+                0 => -1,
+                1 => 0,
+                2 => i32::MAX as i64,
+                3 => i32::MIN as i64,
+                4 => -(rng.below(100000) as i64),
+                _ => rng.below(100000) as i64,
+            };
+            es.push(format!("{}:{}", hex(&name), id));
+        }
+        let ver: i64 = match i % 5 { 0 => 2, 1 => i32::MAX as i64, 2 => i32::MIN as i64, 3 => -(rng.below(1000) as i64), _ => rng.below(1000) as i64 };
+        writeln!(out, "names {} {}", ver, if es.is_empty() { "-".to_string() } else { es.join(",") }).unwrap();
+    }
+
+    // --- wide sub-row strides: i * data_offset + 2 (i + 1) crosses 65 535 ----------------------
+    let m = if thorough { 1_600 } else { 32 };
+    for i in 0..m {
+        let ncols = rng.range(1, 8) as usize;
+        let (region, nsub) = match i % 4 {
+            0 => (rng.range(1500, 2000) as usize, rng.range(34, 120) as usize),
+            1 => (rng.range(65000, 65535) as usize, rng.range(2, 4) as usize),
+            2 => (rng.range(300, 700) as usize, rng.range(100, 230) as usize),
+            _ => (65535, 2),
+        };
+        let sh = sheet(&mut rng, true, ncols, region);
+        let subs = move |_r: &mut Rng| -> usize { nsub };
+        emit_sheet(&mut rng, out, &sh, 1, &subs, 1);
+    }
+}
+
+fn show(c: &ColumnData) -> String {
+    match c {
+        ColumnData::String(s) => {
+            // the code pushes `byte as char`; print the code points back as bytes when they fit
+            let bytes: Option<Vec<u8>> = s.chars().map(|ch| u8::try_from(ch as u32).ok()).collect();
+            match bytes {
+                Some(b) => format!("s:{}", hex(&b)),
+                None => format!("s:utf8:{}", hex(s.as_bytes())),
+            }
+        }
+        ColumnData::Bool(b) => format!("b:{}", *b as u8),
+        ColumnData::Int8(v) => format!("i8:{}", v),
+        ColumnData::UInt8(v) => format!("u8:{}", v),
+        ColumnData::Int16(v) => format!("i16:{}", v),
+        ColumnData::UInt16(v) => format!("u16:{}", v),
+        ColumnData::Int32(v) => format!("i32:{}", v),
+        ColumnData::UInt32(v) => format!("u32:{}", v),
+        ColumnData::Float32(v) => format!("f:{}", v.to_bits()),
+        ColumnData::Int64(v) => format!("i64:{}", v),
+        ColumnData::UInt64(v) => format!("u64:{}", v),
+    }
+}
+
+fn language(code: u8) -> Option<Language> {
+    Some(match code {
+        0 => Language::None,
+        1 => Language::Japanese,
+        2 => Language::English,
+        3 => Language::German,
+        4 => Language::French,
+        5 => Language::ChineseSimplified,
+        6 => Language::ChineseTraditional,
+        7 => Language::Korean,
+        _ => return None,
+    })
+}
+
+pub fn run(case: &str, input: &str) -> String {
+    let f: Vec<&str> = input.split(' ').collect();
+    match f[0] {
+        "row" if f.len() == 4 => {
+            let (Some(exh), Some(exd), Ok(id)) = (unhex(f[1]), unhex(f[2]), f[3].parse::<u32>()) else {
+                return "bad-case".into();
+            };
+            guarded(move || {
+                let Some(exh) = EXH::from_existing(&exh) else { return "parse-none:exh".into() };
+                let Some(exd) = EXD::from_existing(&exd) else { return "parse-none:exd".into() };
+                match exd.read_row(&exh, id) {
+                    None => "none".to_string(),
+                    Some(rows) => rows
+                        .iter()
+                        .map(|r| r.data.iter().map(show).collect::<Vec<_>>().join(","))
+                        .collect::<Vec<_>>()
+                        .join("|"),
+                }
+            })
+        }
+        "exh" if f.len() == 2 => {
+            let Some(exh) = unhex(f[1]) else { return "bad-case".into() };
+            guarded(move || {
+                let Some(exh) = EXH::from_existing(&exh) else { return "none".into() };
+                let j = |v: Vec<String>| if v.is_empty() { "-".to_string() } else { v.join(",") };
+                format!(
+                    "{} {} {} {} {}",
+                    exh.header.data_offset,
+                    exh.header.row_count,
+                    j(exh.column_definitions.iter().map(|c| format!("{}:{}", c.data_type.clone() as u16, c.offset)).collect()),
+                    j(exh.pages.iter().map(|p| format!("{}:{}", p.start_id, p.row_count)).collect()),
+                    j(exh.languages.iter().map(|l| (*l as u8).to_string()).collect())
+                )
+            })
+        }
+        "fname" if f.len() == 4 => {
+            let (Some(name), Ok(lang), Ok(start)) = (unhex(f[1]), f[2].parse::<u8>(), f[3].parse::<u32>()) else {
+                return "bad-case".into();
+            };
+            let (Ok(name), Some(lang)) = (String::from_utf8(name), language(lang)) else { return "bad-case".into() };
+            guarded(move || {
+                let page = ExcelDataPagination { start_id: start, row_count: 0 };
+                hex(EXD::calculate_filename(&name, lang, &page).as_bytes())
+            })
+        }
+        "exl" if f.len() == 2 => {
+            let Some(buf) = unhex(f[1]) else { return "bad-case".into() };
+            guarded(move || match physis::exl::EXL::from_existing(&buf) {
+                None => "none".to_string(),
+                Some(exl) => {
+                    let es: Vec<String> = exl.entries.iter().map(|(n, i)| format!("{}:{}", hex(n.as_bytes()), i)).collect();
+                    format!("{} {}", exl.version, if es.is_empty() { "-".to_string() } else { es.join(",") })
+                }
+            })
+        }
+        _ => "bad-case".into(),
+    }
+}
+
+/// T2: the code tables of the *compiled* reader, exhaustively: every u16 as a column type code and
+/// every u8 as a language code is pushed through `EXH::from_existing` (a 32-byte header declaring
+/// one column / one language followed by the probe); accepted codes are listed with the variant
+/// they decode to (and, for languages, `get_language_code`).
+pub fn dump(out: &mut dyn Write) {
+    fn header(cols: u16, langs: u16) -> Vec<u8> {
+        let mut h = b"EXHF".to_vec();
+        for v in [3u16, 4, cols, 0, langs] {
+            h.extend_from_slice(&v.to_be_bytes());
+        }
+        h.extend_from_slice(&[0u8; 18]);
+        h
+    }
+    fn ctor(debug: &str) -> String {
+        // Lean constructor of Physis.Exh.ColumnDataType: `UInt8` -> `uint8`, `PackedBool3` -> `packedBool3`
+        if let Some(r) = debug.strip_prefix("UInt") {
+            format!("uint{}", r)
+        } else {
+            let mut c = debug.chars();
+            let f = c.next().unwrap().to_ascii_lowercase();
+            format!("{}{}", f, c.as_str())
+        }
+    }
+    writeln!(out, "-- GENERATED by `harness C05 dump` from the compiled code — do not edit (rewritten by ./check on every run)").unwrap();
+    writeln!(out, "import PhysisModel.Model.Exh").unwrap();
+    writeln!(out, "namespace Physis.Generated\nopen Physis.Exh\n").unwrap();
+    writeln!(out, "/-- every u16 accepted as `ColumnDataType`, with the variant it decodes to -/").unwrap();
+    writeln!(out, "def excelColumnCodes : List (Nat × ColumnDataType) := [").unwrap();
+    let mut first = true;
+    for code in 0..=u16::MAX {
+        let mut b = header(1, 0);
+        b.extend_from_slice(&code.to_be_bytes());
+        b.extend_from_slice(&[0, 0]);
+        if let Some(exh) = EXH::from_existing(&b) {
+            let name = format!("{:?}", exh.column_definitions[0].data_type);
+            writeln!(out, "  {}({}, .{})", if first { "" } else { "," }, code, ctor(&name)).unwrap();
+            first = false;
+        }
+    }
+    writeln!(out, "]\n").unwrap();
+    writeln!(out, "/-- every u8 accepted as `Language`, the variant, and `get_language_code` of it (ASCII) -/").unwrap();
+    writeln!(out, "def excelLanguageCodes : List (Nat × Language × List UInt8) := [").unwrap();
+    let mut first = true;
+    for code in 0..=u8::MAX {
+        let mut b = header(0, 1);
+        b.push(code);
+        if let Some(exh) = EXH::from_existing(&b) {
+            let l = exh.languages[0];
+            let name = match l {
+                Language::None => "None",
+                Language::Japanese => "Japanese",
+                Language::English => "English",
+                Language::German => "German",
+                Language::French => "French",
+                Language::ChineseSimplified => "ChineseSimplified",
+                Language::ChineseTraditional => "ChineseTraditional",
+                Language::Korean => "Korean",
+            };
+            let sfx: Vec<String> = physis::common::get_language_code(&l).bytes().map(|c| c.to_string()).collect();
+            writeln!(out, "  {}({}, .{}, [{}])", if first { "" } else { "," }, code, name, sfx.join(", ")).unwrap();
+            first = false;
+        }
+    }
+    writeln!(out, "]\n\nend Physis.Generated").unwrap();
+}
